@@ -75,6 +75,10 @@ class TimeInterp(PathInterp):
             if got != OTHER:
                 return got
             base = self.q(e.value, env)
+            if e.attr in ("seconds", "days", "microseconds", "nanoseconds", "components") and base in TIMEQ:
+                self.report("lossy", e, f"`{norm(e)}` takes one component of a {base} time span (Timedelta.{e.attr} drops whole days / fractions); "
+                                        "the span in seconds is .total_seconds()")
+                return OTHER
             if e.attr == "index":
                 if base == FRAMES:
                     return self.frame_q
